@@ -12,7 +12,7 @@ RULE = (
     "seeded call histories: 2-6 concurrently pending actor tasks each run a script of {call f.asynq(...) in one of "
     "several spellings (positional / keyword / defaults / keyword-only), await one or several earlier calls (same yield "
     "or later), let a flush pass, dirty(key)} against deduplicated plain functions, methods on two instances and a "
-    "static method, over 2-3 keys; bodies block on one or two batch flushes, succeed or raise, and optionally re-enter "
+    "static method, over 2-3 keys (in 40% of the histories different keys with EQUAL hashes: -1/-2, 0/2**61-1); bodies block on one or two batch flushes, succeed or raise, and optionally re-enter "
     "their own key synchronously. Several get_priority() policies, both builds. Model: key -> in-flight task (created, "
     "not complete, not dirtied), maintained from the returned objects and their on_computed events. Oracles: a call from "
     "outside the running body returns the model's task (identity) or, if none, a task that is not already computed and "
@@ -241,7 +241,11 @@ def do_dirty(fn, key, spelling):
 
 def make_script(rnd):
     fnames = rnd.sample(["f", "g", "m:o1", "m:o2", "s"], rnd.randint(1, 3))
-    keys = rnd.sample([(1, 0, 1), (1, 2, 1), (2, 0, 1), (1, 0, 5), (3, 4, 5)], rnd.randint(1, 3))
+    pool = [(1, 0, 1), (1, 2, 1), (2, 0, 1), (1, 0, 5), (3, 4, 5)]
+    if rnd.random() < 0.4:
+        # different keys whose hashes are EQUAL (hash(-1) == hash(-2), hash(0) == hash(2**61 - 1))
+        pool = rnd.choice([[(-1, 0, 1), (-2, 0, 1), (1, 0, 1)], [(0, 0, 1), (2 ** 61 - 1, 0, 1)], [(1, -1, 1), (1, -2, 1), (-1, -2, 1), (-2, -1, 1)]])
+    keys = rnd.sample(pool, rnd.randint(min(2, len(pool)), min(3, len(pool))))
     cfg = {}
     for fn in fnames:
         for k in keys:
